@@ -27,12 +27,17 @@ def _vals(rng):
 class World:
     """Harness-side state of one run: folders, current sources, options, label."""
 
-    def __init__(self, sandbox, clock, name, vals_seed, symlink_sub=None):
+    # folder layouts: (model folder, library folder) relative to the sandbox.  1: siblings whose names share a string
+    # prefix; 2: the library lies inside the model folder (its files are then found by both walks)
+    LAYOUTS = [("m", "lib"), ("m", "m_lib"), ("m", os.path.join("m", "libs"))]
+
+    def __init__(self, sandbox, clock, name, vals_seed, symlink_sub=None, layout=0):
         self.sandbox = sandbox
         self.clock = clock
         self.name = name
-        self.mdir = os.path.join(sandbox, "m")
-        self.ldir = os.path.join(sandbox, "lib")
+        self.layout = layout
+        self.mdir = os.path.join(sandbox, self.LAYOUTS[layout][0])
+        self.ldir = os.path.join(sandbox, self.LAYOUTS[layout][1])
         os.makedirs(self.mdir)
         if symlink_sub is None:
             symlink_sub = vals_seed % 2 == 1
@@ -56,12 +61,13 @@ class World:
         self.cache_file = os.path.join(self.mdir, name + ".pymoca_cache")
 
     @classmethod
-    def restore(cls, sandbox, clock, name, files, late):
+    def restore(cls, sandbox, clock, name, files, late, layout=0):
         """The world of an earlier simulated process of the same run (nothing is written)."""
         w = cls.__new__(cls)
         w.sandbox, w.clock, w.name = sandbox, clock, name
-        w.mdir = os.path.join(sandbox, "m")
-        w.ldir = os.path.join(sandbox, "lib")
+        w.layout = layout
+        w.mdir = os.path.join(sandbox, cls.LAYOUTS[layout][0])
+        w.ldir = os.path.join(sandbox, cls.LAYOUTS[layout][1])
         w.ent = cp.POOL[name]
         w.files = {k: (dict(v[0]), bool(v[1])) for k, v in files.items()}
         w.late = dict(late)
@@ -137,7 +143,8 @@ class Engine:
             return [("history", 600 if tier == "quick" else 40_000), ("codegen", 16 if tier == "quick" else 600)]
         if prop == "C19":
             n = len(MODELS) * len(cp.OPTION_SETS)
-            return [("roundtrip", n * (2 if tier == "quick" else 40))]
+            # roundtrip_codegen: the compiled-library format (every simulated process a child interpreter, seconds per build)
+            return [("roundtrip", n * (2 if tier == "quick" else 40)), ("roundtrip_codegen", 8 if tier == "quick" else 300)]
         if prop == "C21":
             out = []
             models = ["Tank", "UsesLib"] if tier == "quick" else MODELS
@@ -155,11 +162,11 @@ class Engine:
         raise ValueError(prop)
 
     def chunk_size(self, config, tier):
-        return 1 if config.startswith("codegen") else 40
+        return 1 if "codegen" in config else 40
 
     def selftest_n(self, config, tier):
         # a codegen run costs ~10 s (child interpreters + gcc): repeat only a few of them for the determinism self-test
-        return (2 if tier == "quick" else 8) if config.startswith("codegen") else 10 ** 9
+        return (2 if tier == "quick" else 8) if "codegen" in config else 10 ** 9
 
     def min_cap(self, plan):
         return 25 if plan.get("kind") == "codegen" else 300
@@ -234,8 +241,24 @@ class Engine:
         if config == "codegen_crash":
             return self.gen_codegen_crash(rng)
         if config == "roundtrip":
+            # prior: the folder already holds a cache built for another option set; mutate: the caller changes the models
+            # it was given (its own objects) before asking again in the same process
             return {"kind": "roundtrip", "vals_seed": rng.randrange(1 << 30), "third": rng.random() < 0.5,
-                    "chdir": rng.random() < 0.5, "extra": rng.random() < 0.3}
+                    "chdir": rng.random() < 0.5, "extra": rng.random() < 0.3,
+                    "prior": rng.randrange(len(cp.OPTION_SETS)) if rng.random() < 0.35 else None,
+                    "mutate": rng.random() < 0.5, "layout": rng.choice([0, 0, 1, 2])}
+        if config == "roundtrip_codegen":
+            name = rng.choice(["Tank", "Ali", "Str", "UsesLib"])
+            optset = rng.randrange(len(cp.OPTION_SETS))
+            ops = []
+            if getattr(rng, "run_index", 0) % 2 == 0:
+                # an earlier build for other options left its libraries in the folder; sets 2, 4, 5, 7 change the
+                # functions' signatures, which makes a mix-up visible whatever the model
+                prior = rng.choice([i for i in ([2, 4, 5, 7] if rng.random() < 0.7 else range(len(cp.OPTION_SETS))) if i != optset])
+                ops += [{"op": "options", "set": prior}, {"op": "transfer"}, {"op": "restart"}, {"op": "options", "set": optset}]
+            ops += [{"op": "transfer"}, {"op": "restart"}, {"op": "transfer"}, {"op": "restart"}, {"op": "transfer"}]
+            return {"kind": "codegen", "roundtrip": True, "model": name, "vals_seed": rng.randrange(1 << 30), "ops": ops,
+                    "optset": optset, "mode": "codegen", "avoid": True, "hold_models": False, "layout": rng.choice([0, 1])}
         if config.startswith("crash:"):
             return {"kind": "crash", "vals_seed": rng.randrange(1 << 30)}
         if config.startswith("trunc:"):
@@ -312,12 +335,20 @@ class Engine:
             else:
                 ops.append({"op": "clock", "delta_s": rng.choice(CLOCK_DELTAS)})
         ops.append({"op": "transfer"})
+        optset0 = rng.randrange(len(cp.OPTION_SETS)) if rng.random() < 0.5 else 0
+        if rng.random() < 0.3:
+            ops = self._revisit_motif(rng, keys, optset0)
         plan = {"kind": "history", "model": name, "vals_seed": rng.randrange(1 << 30), "ops": ops,
-                "optset": rng.randrange(len(cp.OPTION_SETS)) if rng.random() < 0.5 else 0, "mode": "cache"}
+                "optset": optset0, "mode": "cache", "layout": rng.choice([0, 0, 1, 2])}
         if codegen:
             # compiled shared libraries: every simulated process is a real child interpreter (dlopen state belongs to
             # the OS process).  Short histories: a build costs seconds.
             ops = [o for o in ops if o["op"] != "clock"][:6]
+            if rng.random() < 0.4:
+                ops = [o for o in self._revisit_motif(rng, keys, plan["optset"]) if o["op"] != "restart"][:8]
+                while ops[-1]["op"] != "transfer":
+                    ops.pop()
+                ops = ops[:-1]  # two transfers are appended below
             if not any(o["op"] == "edit" for o in ops):
                 ops.insert(1, {"op": "edit", "file": "model:" + next(iter(cp.POOL[name]["model"])), "vals": _vals(rng), "extra": False})
             ops += [{"op": "transfer"}, {"op": "transfer"}]
@@ -334,6 +365,40 @@ class Engine:
                         hold_models=rng.random() < 0.7)
         return plan
 
+    @staticmethod
+    def _revisit_motif(rng, keys, optset0):
+        """A -> B -> A: the state a cache was built for comes back after the cache was rebuilt for another one (options,
+        version, or file contents), with or without an edit on the way.  Purely random histories rarely do this."""
+        what = rng.choice(["options", "options", "version", "content"])
+        ops = [{"op": "transfer"}]
+
+        def maybe_edit(p):
+            if rng.random() < p:
+                ops.append({"op": "edit", "file": rng.choice(keys), "vals": _vals(rng), "extra": rng.random() < 0.25})
+
+        def maybe_restart():
+            if rng.random() < 0.4:
+                ops.append({"op": "restart"})
+
+        other = rng.choice([i for i in range(len(cp.OPTION_SETS)) if i != optset0])
+        vals0 = _vals(rng)
+        key = rng.choice(keys)
+        if what == "content":
+            ops.insert(0, {"op": "edit", "file": key, "vals": vals0, "extra": False})
+        for leg in (1, 0, 1, 0)[: rng.choice([2, 2, 4])]:
+            maybe_edit(0.5 if what != "content" else 0.0)
+            if what == "options":
+                ops.append({"op": "options", "set": other if leg else optset0})
+            elif what == "version":
+                ops.append({"op": "version", "label": 1 if leg else 0})
+            else:
+                ops.append({"op": "edit", "file": key, "vals": _vals(rng) if leg else vals0, "extra": False})
+            maybe_restart()
+            ops.append({"op": "transfer"})
+            if rng.random() < 0.3:
+                ops.append({"op": "transfer"})
+        return ops
+
     def shrink_candidates(self, plan):
         if plan["kind"] in ("history", "codegen"):
             for cand in ddmin_list(plan["ops"]):
@@ -343,6 +408,10 @@ class Engine:
             if plan["optset"] != 0:
                 p = copy.deepcopy(plan)
                 p["optset"] = 0
+                yield p
+            if plan.get("layout"):
+                p = copy.deepcopy(plan)
+                p["layout"] = 0
                 yield p
             for i, op in enumerate(plan["ops"]):
                 if op["op"] == "edit" and op["extra"]:
@@ -436,7 +505,7 @@ class Engine:
             if n:
                 counts[k] = counts.get(k, 0) + n
 
-        world = World(sandbox, clock, plan["model"], plan["vals_seed"])
+        world = World(sandbox, clock, plan["model"], plan["vals_seed"], layout=plan.get("layout", 0))
         optset, mode, label_i = plan["optset"], plan["mode"], 0
         proc = procs.ApiProcess(LABELS[label_i])
         pending = set()  # invalidation causes since the last cache build
@@ -518,10 +587,10 @@ class Engine:
         core.set_clock(clock)
         log = core.EventLog()
         counts = {}
-        world = World(sandbox, clock, plan["model"], plan["vals_seed"])
+        world = World(sandbox, clock, plan["model"], plan["vals_seed"], layout=plan.get("layout", 0))
         state = {"sandbox": sandbox, "model": plan["model"], "files": world.files, "late": world.late,
                  "optset": plan["optset"], "label_i": 0, "pending": [], "have_cache": False, "clock_us": clock.now_us,
-                 "repo": procs.repo_root(), "hold_models": bool(plan.get("hold_models"))}
+                 "repo": procs.repo_root(), "hold_models": bool(plan.get("hold_models")), "layout": plan.get("layout", 0)}
         # segments: a restart / version operation ends the life of a simulated process
         segs, cur = [], []
         for op in plan["ops"]:
@@ -569,7 +638,11 @@ class Engine:
                 break
         clock.now_us = state["clock_us"]
         measure = "crash_points_and_schedules" if plan.get("crash") else "history_states"
-        return self._result(plan, log, clock, counts, {measure: sorted(states)}, viol, 0)
+        distinct = {measure: sorted(states)}
+        if plan.get("roundtrip"):
+            distinct = {"roundtrips": [canon.digest(("codegen", plan["model"], plan["optset"], plan.get("layout", 0),
+                                                     [(o["op"], o.get("set")) for o in plan["ops"]]))]}
+        return self._result(plan, log, clock, counts, distinct, viol, 0)
 
     def codegen_segment(self, job):
         """Executed in the child interpreter: the operations of one simulated process."""
@@ -583,7 +656,7 @@ class Engine:
             if n:
                 counts[k] = counts.get(k, 0) + n
 
-        world = World.restore(sandbox, clock, job["model"], job["files"], job["late"])
+        world = World.restore(sandbox, clock, job["model"], job["files"], job["late"], job.get("layout", 0))
         optset, label_i = job["optset"], job["label_i"]
         pending = set(job["pending"])
         have_cache = job["have_cache"]
@@ -684,7 +757,7 @@ class Engine:
         core.set_clock(clock)
         log = core.EventLog()
         counts = {}
-        world = World(sandbox, clock, name, plan["vals_seed"])
+        world = World(sandbox, clock, name, plan["vals_seed"], layout=plan.get("layout", 0))
         if plan["extra"]:
             k = "model:" + next(iter(world.ent["model"]))
             world.files[k] = (world.files[k][0], True)
@@ -696,13 +769,26 @@ class Engine:
         viol = None
         shape0 = ["roundtrip", name, optset]
         fs = fsim.FsSeam(sandbox, None, clock)
+        prior = plan.get("prior")
         with util.capture_pymoca_log(), fs:
             steps = ["save", "load"] + (["load_again"] if plan["third"] else [])
+            if prior is not None and prior != optset:
+                steps.insert(0, "prior_save")
+            got = None
             for si, step in enumerate(steps):
                 clock.advance(5000)
+                if plan.get("mutate") and got is not None:
+                    self._mutate_model(got)
+                    counts["probe:caller_mutated_model"] = counts.get("probe:caller_mutated_model", 0) + 1
                 proc = procs.ApiProcess(LABELS[0]) if step != "load_again" else proc  # noqa: F821
                 if plan["chdir"] and step == "load":
                     os.chdir(sandbox)
+                if step == "prior_save":
+                    got, err = self.call(proc, world, prior, "cache")
+                    viol = self.judge(world, prior, LABELS[0], got, err, shape0 + [step], "%s of %s" % (step, name))
+                    if viol:
+                        break
+                    continue
                 got, err = self.call(proc, world, optset, "cache")
                 is_cached = got is not None and type(got).__name__ == "CachedModel"
                 log.add(clock.now_us, 0, step, "cached" if is_cached else ("error" if err else "compiled"))
@@ -711,8 +797,37 @@ class Engine:
                 viol = self.judge(world, optset, LABELS[0], got, err, shape0 + [step], "%s of %s" % (step, name))
                 if viol:
                     break
-        key = canon.digest((name, optset, plan["extra"], plan["third"], plan["chdir"]))
+        key = canon.digest((name, optset, plan["extra"], plan["third"], plan["chdir"], prior, bool(plan.get("mutate")),
+                            plan.get("layout", 0)))
         return self._result(plan, log, clock, counts, {"roundtrips": [key]}, viol, len(fs.trace))
+
+    @staticmethod
+    def _mutate_model(m):
+        """What a caller may do to a model it was given: these are its own objects, a later transfer_model must not
+        see any of it."""
+        def attempt(f):
+            try:
+                f()
+            except Exception:
+                pass
+
+        attempt(lambda: m.outputs.pop() if m.outputs else m.outputs.append("verif_out"))
+        attempt(lambda: m.delay_states.append("verif_delay_state"))
+        for lst in ("string_parameters", "string_constants"):
+            for v in list(getattr(m, lst, []) or []):
+                attempt(lambda v=v: setattr(v, "value", "verif-mutated"))
+        for cat in ("states", "alg_states", "parameters", "constants", "inputs"):
+            vs = list(getattr(m, cat, []) or [])
+            if vs:
+                attempt(lambda v=vs[0]: setattr(v, "nominal", 7.5))
+                attempt(lambda v=vs[0]: setattr(v, "min", -123.0))
+                attempt(lambda v=vs[-1]: v.aliases.add("verif_alias"))
+                attempt(lambda c=cat, vs=vs: getattr(m, c).reverse())
+        names = [v.symbol.name() for v in list(getattr(m, "alg_states", []) or []) + list(getattr(m, "states", []) or [])]
+        if len(names) >= 2:
+            attempt(lambda: m.alias_relation.add(names[0], "-" + names[1]))
+        for n in names[:1]:
+            attempt(lambda: m.alias_relation.remove(m.alias_relation.canonical_signed(n)[0]))
 
     # ---- C21: crash points ------------------------------------------------------------------------------------
     def _crash_world(self, sandbox, clock, model, pre, vals_seed):
@@ -890,7 +1005,7 @@ class Engine:
         log = core.EventLog()
         counts = {}
         model = plan["model"]
-        world = World(sandbox, clock, model, plan["vals_seed"])
+        world = World(sandbox, clock, model, plan["vals_seed"], layout=plan.get("layout", 0))
         for key in sorted(world.late):
             world.files[key] = (dict(a=2, b=3, c=4, d=5, e=6), False)
             world.write(key)
